@@ -651,13 +651,6 @@ NARGS = shard_int("NARGS", 1)
 LISTLEN = shard_int("LISTLEN", 2)
 
 
-def _strs_short(ls) -> bool:
-    for x in ls:
-        if len(x) > 2:
-            return False
-    return True
-
-
 def _pick(t: int, b, i, f, s, lb, li, lf, ls):
     return {T_BOOL: b, T_INT: i, T_FLOAT: f, T_STRING: s, T_BOOL_ARRAY: lb, T_INT_ARRAY: li,
             T_FLOAT_ARRAY: lf, T_STRING_ARRAY: ls}[t]
@@ -672,7 +665,6 @@ def h15_execute_service(key: int, major: int, minor: int, t0: int, t1: int,
     pre: len(s0) <= 2 and len(s1) <= 2
     pre: len(lb0) <= LISTLEN and len(li0) <= LISTLEN and len(lf0) <= LISTLEN and len(ls0) <= LISTLEN
     pre: len(lb1) <= LISTLEN and len(li1) <= LISTLEN and len(lf1) <= LISTLEN and len(ls1) <= LISTLEN
-    pre: _strs_short(ls0) and _strs_short(ls1)
     pre: _ver_ok(major, minor, 1, 3)
     post: _
     """
@@ -772,7 +764,7 @@ BOUNDS = {
         "durations": "h15_light: transition_length/flash_length symbolic INT seconds in [0, 4294967] (exact: ms == s*1000) together with "
                      "all other arguments; h15_light_durations: float seconds in [0, 4294967.0] modelled as z3 Reals (every real "
                      "number, not only doubles), oracle |ms - 1000 s| <= 1/2",
-        "execute_service": "1 and 2 arguments, each of every one of the 8 declared types, list values of length <= 2",
+        "execute_service": "1 and 2 arguments, each of every one of the 8 declared types, list values of length <= 2 (elements of string lists: symbolic str of any length)",
     },
     "thorough": {"as quick, plus": "execute_service list values of length <= 3 with 2 arguments on each side of 1.3"},
 }
